@@ -226,6 +226,10 @@ def expand(node):
         o2 = pickle.loads(blob)
         viol = []
         try:
+            # observers interleaved before the edit: anything they cache must be refreshed by update_discretizer
+            o2.summary()
+            o2.transform(X.copy())
+            o2.to_json()
             apply_edit(o2, ev)
         except Exception as exc:  # noqa
             viol.append({"kind": f"edit-raises-{type(exc).__name__}", "what": f"update_discretizer{tuple(ev)} raised {type(exc).__name__}: {str(exc)[:100]} ({space.innermost_frame(exc)})"})
